@@ -525,10 +525,13 @@ func enumResetPairs(tier string, part, parts, skip int, deadline time.Time, note
 					for _, n := range names[:3] {
 						w.Svc.Model(n, "n", `0`)
 					}
+					w.Svc.Model("test.idle", "n", `0`)
 				},
 				Conns: []mc.ConnSpec{
 					conn(latest, req("subscribe.test.a", 0), req("subscribe.test.a.b", 0), req("subscribe.test.q?a", 0), req("subscribe.test.q?c", 0)),
 					conn(latest, req("subscribe.test.c.b", 0), req("subscribe.test.a", 0), req("subscribe.test.q?n", 0)),
+					// test.idle stays cached without any subscriber (eviction delay not over)
+					conn(latest, req("subscribe.test.idle", 0), req("unsubscribe.test.idle", 0)),
 				},
 				Threads: []mc.Thread{{Name: "svc", Ops: []mc.Op{{Name: "reset", Phase: 1, When: clientsDone, Do: func(w *mc.World) {
 					w.Data["resetAt"] = w.Time() + 1
@@ -561,6 +564,9 @@ func enumResetPairs(tier string, part, parts, skip int, deadline time.Time, note
 						if match(n) {
 							want["get."+n+" {}"]++
 						}
+					}
+					if match("test.idle") {
+						want["get.test.idle {}"]++
 					}
 					if match("test.q") {
 						want[`get.test.q {"query":"n"}`]++
